@@ -10,6 +10,9 @@ import CppUtil.Monitor.Excl
 import CppUtil.Gen.Pess
 import CppUtil.Gen.Opt
 import CppUtil.Gen.Mcs
+import CppUtil.Model.TClient
+import CppUtil.Gen.Thread
+import CppUtil.Monitor.ThreadMon
 
 open CppUtil CppUtil.WClient CppUtil.Monitor
 
@@ -17,18 +20,22 @@ open CppUtil CppUtil.WClient CppUtil.Monitor
 inductive Sim where
   | w (P : WLock.WParams) (c : WClient.Client)
   | m (P : Mcs.Params) (c : MClient.Client)
+  | th (P : TClient.Params) (c : TClient.Client)
 
 def Sim.step : Sim → Nat → Option (Sim × String × List String)
   | .w P c, t => (WClient.stepThread P c t).map fun (c', e, o) => (.w P c', e, o)
   | .m P c, t => (MClient.stepThread P c t).map fun (c', e, o) => (.m P c', e, o)
+  | .th P c, t => (TClient.stepThread P c t).map fun (c', e, o) => (.th P c', e, o)
 
 def Sim.allDone : Sim → Bool
   | .w _ c => c.threads.all (·.finished)
   | .m _ c => c.threads.all (·.finished)
+  | .th _ c => c.threads.all (·.finished)
 
 def Sim.uaf : Sim → Nat
   | .w _ _ => 0
   | .m _ c => c.core.uaf
+  | .th _ _ => 0
 
 def splitWs (s : String) : List String := (s.splitOn " ").filter (· ≠ "")
 
@@ -70,6 +77,41 @@ def parseProg (s : String) : Option (Array Op) :=
   let parts := (s.splitOn ";").map (fun p => p.trimAscii.toString) |>.filter (· ≠ "")
   parts.foldl (fun acc p => do let a ← acc; let o ← parseOp p; some (a.push o)) (some #[])
 
+def parseTOp (s : String) : Option TClient.Op :=
+  match splitWs s with
+  | ["probe", r] => do some (.probe (← r.toNat?))
+  | ["gid"] => some .gid
+  | ["hbget"] => some .hbget
+  | ["guard", v] => do some (.guard (← v.toNat?))
+  | ["unguard", v] => do some (.unguard (← v.toNat?))
+  | ["gpe", v] => do some (.gpe (← v.toNat?))
+  | ["relist", v] => do some (.relist (← v.toNat?))
+  | ["gepoch", v] => do some (.gepoch (← v.toNat?))
+  | ["fwd"] => some (.fwd 1)
+  | ["fwd", n] => do some (.fwd (← n.toNat?))
+  | ["cur"] => some .cur
+  | ["min"] => some .min
+  | _ => none
+
+def topName : TClient.Op → String × Nat
+  | .probe _ => ("probe", 0) | .gid => ("gid", 0) | .hbget => ("hbget", 0)
+  | .guard v => ("guard", v) | .unguard v => ("unguard", v) | .gpe v => ("gpe", v)
+  | .relist v => ("relist", v) | .gepoch v => ("gepoch", v) | .fwd _ => ("fwd", 0)
+  | .cur => ("cur", 0) | .min => ("min", 0)
+
+def threadRes (seq : Bool) (tid : Nat) (s : ThreadMon) (op? : Option TClient.Op) (tok : String) : ThreadMon :=
+  match op? with
+  | some op =>
+    let (n, v) := topName op
+    match tok.splitOn "=" with
+    | [_, res] => threadResOp seq tid s n v res
+    | _ => s
+  | none => s
+
+def parseTProg (s : String) : Option (Array TClient.Op) :=
+  let parts := (s.splitOn ";").map (fun p => p.trimAscii.toString) |>.filter (· ≠ "")
+  parts.foldl (fun acc p => do let a ← acc; let o ← parseTOp p; some (a.push o)) (some #[])
+
 structure Scen where
   id : String := ""
   comp : String := "pess"
@@ -77,6 +119,10 @@ structure Scen where
   nlocks : Nat := 1
   kinds : Array GKind := #[]
   progs : Array (Array Op) := #[]
+  tprogs : Array (Array TClient.Op) := #[]
+  cap : Nat := 3
+  nvars : Nat := 4
+  seq : Bool := false
 
 def kvGet (kvs : List String) (k : String) : Option String :=
   kvs.findSome? fun kv => match kv.splitOn "=" with
@@ -110,8 +156,12 @@ structure Run where
 def mcsParams : Mcs.Params :=
   { C := Gen.mcsConsts, ord := Gen.mcsOrders, publishStore := Gen.mcsPublishIsStore }
 
+def threadParams (sc : Scen) : TClient.Params :=
+  { C := Gen.epochConsts, n := sc.cap, expireFirst := Gen.heartbeatExpiresFirst, ord := Gen.threadOrders }
+
 def mkSim (sc : Scen) : Sim :=
-  if sc.comp == "mcs" then .m mcsParams (MClient.mkClient sc.nlocks sc.kinds sc.progs)
+  if sc.comp == "thread" then .th (threadParams sc) (TClient.mkClient (threadParams sc) sc.nvars sc.tprogs)
+  else if sc.comp == "mcs" then .m mcsParams (MClient.mkClient sc.nlocks sc.kinds sc.progs)
   else if sc.comp == "opt" then .w (Gen.opt sc.retry) (WClient.mkClient sc.nlocks sc.kinds sc.progs)
   else .w (Gen.pess sc.retry) (WClient.mkClient sc.nlocks sc.kinds sc.progs)
 
@@ -140,20 +190,33 @@ def processQ (r : Run) (line : String) (st : Stats) : Run × Stats :=
     let tid := tidS.toNat?.getD 0
     let implEv := " ".intercalate evParts
     -- monitors on the implementation's tokens
-    let mon0 := fifoEvent r.mon tid (evParts.getD 0 "") (evParts.getD 1 "") (evParts.getD 6 "")
+    let mon00 := fifoEvent r.mon tid (evParts.getD 0 "") (evParts.getD 1 "") (evParts.getD 6 "")
+    let mon0 := if r.sc.comp == "thread" then
+        { mon00 with th := threadEvent mon00.th tid (evParts.getD 0 "") (evParts.getD 1 "")
+                            ((parseHexOrNat (evParts.getD 4 "0")).getD 0) ((parseHexOrNat (evParts.getD 5 "0")).getD 0) }
+      else mon00
     let mon := toks.foldl (fun m tok =>
       let r' := { r with mon := m }
       if tok.startsWith "G+" then fifoGrant (stepTok m tok) tid tok
       else if tok.startsWith "G" then stepTok m tok
+      else if tok.startsWith "R" && r.sc.comp == "thread" then
+        { m with th := threadRes r.sc.seq tid m.th ((r.sc.tprogs.getD tid #[])[((tok.drop 1).toString.splitOn "=").head!.toNat?.getD 0]?) tok }
       else if tok.startsWith "R" then monResult r' tid tok
       else if tok.startsWith "NA" || tok.startsWith "NF" then nodeTok m tok
+
       else if tok.startsWith "B" then
         match (tok.drop 1).toString.toNat? with
         | some k =>
+          if r.sc.comp == "thread" then
+            match (r.sc.tprogs.getD tid #[])[k]? with
+            | some op => { m with th := threadBegin m.th tid (topName op).1 }
+            | none => m
+          else
           match (r.sc.progs.getD tid #[])[k]? with
           | some (.lock md _ lk) => fifoBegin m tid lk md
           | _ => m
         | none => m
+      else if r.sc.comp == "thread" then { m with th := threadTok r.sc.seq r.sc.cap m.th tid tok }
       else m) mon0
     let st := { st with quanta := st.quanta + 1, evKinds := bump st.evKinds (s!"{evParts.getD 0 ""}/{evParts.getD 2 ""}"),
                         casFail := st.casFail + (if evParts.getD 0 "" == "cas" && evParts.getD 6 "" == "0" then 1 else 0) }
@@ -179,9 +242,16 @@ partial def loop (h : IO.FS.Stream) (cur : Option Run) (pend : Scen) (st : Stats
       comp := (kvGet kvs "comp").getD "pess"
       retry := ((kvGet kvs "retry").bind (·.toNat?)).getD 1
       nlocks := ((kvGet kvs "nlocks").bind (·.toNat?)).getD 1
-      kinds := (((kvGet kvs "kinds").getD "").splitOn ",").filterMap GKind.ofStr? |>.toArray }
+      kinds := (((kvGet kvs "kinds").getD "").splitOn ",").filterMap GKind.ofStr? |>.toArray
+      cap := ((kvGet kvs "cap").bind (·.toNat?)).getD 3
+      nvars := ((kvGet kvs "nvars").bind (·.toNat?)).getD 4
+      seq := (kvGet kvs "seq") == some "1" }
     loop h none sc st
   else if line.startsWith "T " || line == "T" then
+    if pend.comp == "thread" then
+      let p := (parseTProg (line.drop 1).toString).getD #[]
+      loop h none { pend with tprogs := pend.tprogs.push p } st
+    else
     let p := (parseProg (line.drop 1).toString).getD #[]
     loop h none { pend with progs := pend.progs.push p } st
   else if line.startsWith "Q " then
@@ -200,8 +270,11 @@ partial def loop (h : IO.FS.Stream) (cur : Option Run) (pend : Scen) (st : Stats
     let corr := match r.mismatch with
       | some m => s!"mismatch {m}"
       | none => if status == "ok" && !modelDone then "mismatch end: implementation finished, model did not" else "ok"
-    let monS := match r.mon.bad with | some m => s!"FAIL {m}" | none => "ok"
-    let leak := if status == "ok" && r.mon.bad.isNone && !r.mon.grants.isEmpty then
+    let monS := match r.mon.bad, r.mon.th.bad with
+      | some m, _ => s!"FAIL {m}"
+      | none, some m => s!"FAIL {m}"
+      | none, none => "ok"
+    let leak := if status == "ok" && monS == "ok" && !r.mon.grants.isEmpty then
       s!"FAIL guard: {r.mon.grants.length} grant(s) never released at the end" else monS
     IO.println s!"RES {r.sc.id} end={status} steps={r.step} corr={corr} ;; mon={leak}"
     let st := { st with scen := st.scen + 1,
@@ -212,6 +285,14 @@ partial def loop (h : IO.FS.Stream) (cur : Option Run) (pend : Scen) (st : Stats
                         bools := st.bools + r.mon.nBool, pays := st.pays + r.mon.nPay,
                         maxSimul := max st.maxSimul r.mon.maxSimul }
     loop h none {} st
+  else if line.startsWith "HBEND " || line.startsWith "PNODES " then
+    match cur with
+    | some r =>
+      let kvs := splitWs line
+      let th := threadEnd r.mon.th ((kvGet kvs "unexpired").bind (·.toNat?)) ((kvGet kvs "reserved").bind (·.toNat?))
+                  ((kvGet kvs "live").bind (·.toNat?))
+      loop h (some { r with mon := { r.mon with th := th } }) pend st
+    | none => loop h cur pend st
   else if line.startsWith "NODES " then
     match cur with
     | some r =>
